@@ -1825,6 +1825,182 @@ def float_ops_stream(ctx):
 
 
 # ----------------------------------------------------------------------------
+# operands that carry a STORED EXPONENT (tn.exponent = e: the network denotes 10**e times the product of its
+# tensors).  The exponent is part of the value of an operand, so every arithmetic entry point has to honour it
+# (tensor_network_ag_sum used to direct-sum the tensors only).  Numerical oracle, a test and not a theorem:
+# integer site data, exponents drawn independently per operand from {0, +-1, +-2, 3}; the dense value of the
+# result INCLUDING its stored exponent (computed by harness/tnmodel.py from the result's tensors, not by quimb's
+# to_dense) must equal the numpy expression over the dense operands to 1e-10 relative (1e-9 where an exact
+# recompression is part of the call).
+
+EXPONENTS = [0, 1, -1, 2, -2, 3]
+
+
+def exponent_stream(ctx):
+    import warnings
+
+    import quimb.tensor as qtn
+    from quimb.tensor.tn1d.compress import tensor_network_1d_compress
+
+    rng = ctx.rng
+    for n in range(ctx.n(36, 400)):
+        L = rng.choice([1, 2, 3, 3, 4, 4, 5])
+        kind = rng.choice(["mps", "mps", "mpo"])
+        if kind == "mpo":
+            L = min(L, 4)
+        cyclic = L in (3, 4) and rng.random() < 0.25
+        cplx = rng.random() < 0.4
+        pd = [rng.choice([1, 2, 2, 3] if L <= 3 else [2]) for _ in range(L)]
+        if kind == "mps":
+            a = build_mps(rng, L, cplx, cyclic, 2, phys=pd)
+            b = build_mps(rng, L, cplx, cyclic, 2, phys=pd)
+        else:
+            a = build_mpo(rng, L, cplx, cyclic, 2, phys=[(q, q) for q in pd])
+            b = build_mpo(rng, L, cplx, cyclic, 2, phys=[(q, q) for q in pd])
+        Lo = min(L, 4)
+        A = build_mpo(rng, Lo, cplx, cyclic and Lo == L, 2, phys=[(q, q) for q in pd[:Lo]])
+        es = [rng.choice(EXPONENTS) for _ in range(3)]
+        if not any(es):
+            es[rng.randrange(2)] = rng.choice(EXPONENTS[1:])
+        ea, eb, eA = es
+        a.exponent, b.exponent, A.exponent = float(ea), float(eb), float(eA)
+        outs = outs_of(a)
+        da, db = np_in(a) * 10.0 ** ea, np_in(b) * 10.0 ** eb
+        no = prod(pd[:Lo])
+        MA = (np_in(A) * 10.0 ** eA).reshape(no, no)
+        if not (np.linalg.norm(da) > 0 and np.linalg.norm(db) > 0 and np.linalg.norm(da + db) > 1e-6 * np.linalg.norm(da)
+                and np.linalg.norm(da - db) > 1e-6 * np.linalg.norm(da)):
+            continue
+        x = rng.choice([2.0, -0.5, 3.0, 0.25]) if not (cplx and rng.random() < 0.5) else complex(rng.choice([1, 2]), rng.choice([1, -2]))
+        base = {"L": L, "kind": kind, "cyclic": cyclic, "complex": cplx, "phys": pd, "exponent_a": ea, "exponent_b": eb,
+                "exponent_A": eA, "x": str(x), "a": describe(a), "b": describe(b)}
+        addm = "add_MPS" if kind == "mps" else "add_MPO"
+        nsite = prod(pd)
+
+        def inplace(fn):
+            def run():
+                c = a.copy()
+                r_ = fn(c)
+                return c if r_ is None else r_
+            return run
+
+        V = {}  # op -> (callable returning a network over `outs` or a scalar, numpy reference, tolerance)
+        V["add"] = (lambda: a + b, da + db, 1e-10)
+        V["sub"] = (lambda: a - b, da - db, 1e-10)
+        V["radd_neg"] = (lambda: a + (-b), da - db, 1e-10)
+        V["iadd"] = (inplace(lambda c: c.__iadd__(b)), da + db, 1e-10)
+        V["isub"] = (inplace(lambda c: c.__isub__(b)), da - db, 1e-10)
+        V[addm] = (lambda: getattr(a, addm)(b), da + db, 1e-10)
+        V[addm + "_"] = (inplace(lambda c: getattr(c, addm + "_")(b)), da + db, 1e-10)
+        V["mul"] = (lambda: a * x, x * da, 1e-10)
+        V["rmul"] = (lambda: x * a, x * da, 1e-10)
+        V["div"] = (lambda: a / x, da / x, 1e-10)
+        V["neg"] = (lambda: -a, -da, 1e-10)
+        V["imul"] = (inplace(lambda c: c.__imul__(x)), x * da, 1e-10)
+        V["idiv"] = (inplace(lambda c: c.__itruediv__(x)), da / x, 1e-10)
+        sp = rng.choice([1, 2, 8, "all"])
+        V["multiply"] = (lambda: a.multiply(x, spread_over=sp), x * da, 1e-10)
+        V["multiply_"] = (inplace(lambda c: c.multiply_(x, spread_over=sp)), x * da, 1e-10)
+        V["multiply_each"] = (lambda: a.multiply_each(x), x ** a.num_tensors * da, 1e-10)
+        V["copy"] = (lambda: a.copy(), da, 1e-12)
+        V["H"] = (lambda: a.H, np.conj(da), 1e-12)
+        V["conj"] = (lambda: a.conj(), np.conj(da), 1e-12)
+        V["to_dense"] = (lambda: np.asarray(a.to_dense()).reshape(-1), da, 1e-12)
+        if kind == "mps":
+            V["overlap"] = (lambda: a.overlap(b), np.vdot(db, da), 1e-10)
+            V["H@"] = (lambda: a.H @ b, np.vdot(da, db), 1e-10)
+            V["norm"] = (lambda: a.norm(), np.linalg.norm(da), 1e-10)
+            if Lo == L:
+                V["expec"] = (lambda: qtn.expec_TN_1D(a.H, A, b), np.vdot(da, MA @ db), 1e-10)
+                V["apply"] = (lambda: A.apply(a), MA @ da, 1e-10)
+                V["dot"] = (lambda: A.dot(a), MA @ da, 1e-10)
+                V["gate_with_op_lazy"] = (lambda: a.gate_with_op_lazy(A), MA @ da, 1e-10)
+            if not cyclic:
+                V[addm + ":compress"] = (lambda: a.add_MPS(b, compress=True, cutoff=0.0), da + db, 1e-9)
+                V["compress"] = (inplace(lambda c: c.compress(cutoff=0.0)), da, 1e-9)
+                V["normalize"] = (lambda: (lambda c: (c.normalize(), c.H @ c)[1])(a.copy()), 1.0, 1e-10)
+                if L >= 2:
+                    V["canonicalize"] = (lambda: a.canonicalize(rng.randrange(L)), da, 1e-9)
+                    m1 = rng.choice(["direct", "dm", "zipup"])
+                    V["1d_compress:" + m1] = (lambda: tensor_network_1d_compress(a, max_bond=64, cutoff=0.0, method=m1), da, 1e-8)
+                    keep = sorted(rng.sample(range(L), rng.randint(1, L)))
+                    V["partial_trace_to_mpo"] = (lambda: np.asarray(a.partial_trace_to_mpo(keep).to_dense()).reshape(-1),
+                                                 ref_ptrace(da, pd, keep).reshape(-1), 1e-10)
+                    w = rng.randrange(L)
+                    G1 = rarr(rng, (pd[w], pd[w]), cplx)
+                    if np.any(G1):
+                        refx = np.vdot(da, dense_gate_dims(da, G1, w, pd))
+                        V["local_expectation:canonical"] = (lambda: a.compute_local_expectation({(w,): G1}, normalized=False), refx, 1e-9)
+                        V["local_expectation:envs"] = (lambda: a.compute_local_expectation({(w,): G1}, normalized=False, method="envs"), refx, 1e-9)
+                if Lo == L:
+                    V["apply:compress"] = (lambda: A.apply(a, compress=True, cutoff=0.0), MA @ da, 1e-9)
+                    V["gate_with_mpo"] = (lambda: a.gate_with_mpo(A, cutoff=0.0), MA @ da, 1e-9)
+        else:
+            Ma, Mb = da.reshape(nsite, nsite), db.reshape(nsite, nsite)
+            V["trace"] = (lambda: a.trace(), np.trace(Ma), 1e-10)
+            V["mpo@"] = (lambda: a @ b, np.sum(da * db), 1e-10)
+            V["apply_mpo"] = (lambda: a.apply(b), (Ma @ Mb).reshape(-1), 1e-10)
+            sysa = sorted(rng.sample(range(L), rng.randint(1, L)))
+            T = Ma.reshape(pd + pd)
+            perm = list(range(2 * L))
+            for i in sysa:
+                perm[i], perm[i + L] = perm[i + L], perm[i]
+            V["partial_transpose"] = (lambda: a.partial_transpose(sysa), np.transpose(T, perm).reshape(-1), 1e-12)
+            if not cyclic:
+                V[addm + ":compress"] = (lambda: a.add_MPO(b, compress=True, cutoff=0.0), da + db, 1e-9)
+                V["apply_mpo:compress"] = (lambda: a.apply(b, compress=True, cutoff=0.0), (Ma @ Mb).reshape(-1), 1e-9)
+        names = sorted(V)
+        # the sums are the entry points the stored exponents used to be lost in: always drawn
+        chosen = [o for o in names if o in ("add", "sub", "iadd", "isub", addm, addm + ":compress") and rng.random() < 0.7]
+        chosen += rng.sample([o for o in names if o not in chosen], min(ctx.n(8, 14), len(names) - len(chosen)))
+        a0, b0, A0 = (describe(t_) for t_ in (a, b, A))
+        for op in chosen:
+            fn, ref, tol = V[op]
+            key = f"arith:exponent:{op}"
+            desc = {**base, "op": key}
+            ctx.count((n, op), any(es) and L >= 2)
+            ctx.bump(f"exponent:{kind}:{op.split(':')[0]}")
+            if n < 1 and op == "add":
+                ctx.sample({k_: v_ for k_, v_ in desc.items() if k_ not in ("a", "b")})
+            try:
+                with warnings.catch_warnings():
+                    warnings.simplefilter("ignore")
+                    res = fn()
+            except Exception as e:
+                ctx.violation(key + ":raised", f"{op} on operands with stored exponents raised {type(e).__name__}: {str(e)[:150]}", desc)
+                continue
+            try:
+                if hasattr(res, "tensors"):
+                    got = np_res(res, outs)
+                    desc["result_exponent"] = float(res.exponent)
+                else:
+                    got = np.asarray(res).reshape(-1)
+            except Exception as e:
+                ctx.violation(key + ":structure", f"result of {op} cannot be densified over the operands' labels: {type(e).__name__}: {str(e)[:120]}", desc)
+                continue
+            refv = np.asarray(ref).reshape(-1)
+            scale = float(np.linalg.norm(refv))
+            if np.ndim(ref) == 0 and op in ("overlap", "H@", "expec", "mpo@", "trace", "local_expectation:canonical", "local_expectation:envs"):
+                # a contraction can cancel: measure against the size of the terms that were summed
+                scale = max(scale, float(np.linalg.norm(da) * (np.linalg.norm(db) if op in ("overlap", "H@", "expec", "mpo@") else np.linalg.norm(da))) * 1e-3)
+            if got.shape != refv.shape or not np.all(np.isfinite(got)) or not np.linalg.norm(got - refv) <= tol * max(scale, 1e-300):
+                err = float(np.linalg.norm(got - refv) / max(scale, 1e-300)) if got.shape == refv.shape else float("nan")
+                ctx.violation(key, f"{op} with operand exponents (a: {ea}, b: {eb}, A: {eA}): the result (stored exponent "
+                              f"{desc.get('result_exponent', '-')}) differs from the dense reference by {err:.2e} relative", desc)
+            if (describe(a), describe(b), describe(A)) != (a0, b0, A0) or (a.exponent, b.exponent, A.exponent) != (ea, eb, eA):
+                ctx.violation(key + ":mutated_input", f"{op} modified an operand (or its stored exponent)", desc)
+                a.exponent, b.exponent, A.exponent = float(ea), float(eb), float(eA)
+                break
+
+
+def dense_gate_dims(vec, G, site, dims):
+    """one-site operator G applied on `site` of a dense vector over sites of dimensions `dims`"""
+    x = np.asarray(vec).reshape(dims)
+    x = np.moveaxis(np.tensordot(np.asarray(G), x, axes=([1], [site])), 0, site)
+    return x.reshape(-1)
+
+
+# ----------------------------------------------------------------------------
 # record histories: sub-operator applications and expectation queries that SHARE one caller-supplied
 # `info` dict (the documented way to keep track of the canonical centre).  Exact part: after every
 # call the implementation's info["cur_orthog"] equals the record of coq/C09/RecordModel.v and every
@@ -2355,6 +2531,7 @@ def run(ctx):
     ctx.check_props(["Base/Sums.vo", "Base/TN.vo", "Base/TNExec.vo", "C09/Model.vo", "C09/Proofs.vo", "C09/Cap.vo", "C09/Trunc.vo", "C09/RecordModel.vo", "C09/Record.vo", "C09/Props.v"])
     timed(ctx, exact_stage)
     timed(ctx, record_history_stage)
+    timed(ctx, exponent_stream)
     timed(ctx, compression_stream)
     timed(ctx, options_stream)
     timed(ctx, bond_cap_stream)
